@@ -15,6 +15,8 @@ pub enum Load {
     None,
     /// an SDN telegram at every opportunity
     SdnAlways,
+    /// an SDN telegram with a 240 byte payload at every opportunity (long own transmissions)
+    SdnLong,
     /// an SRD request to `dest` at every opportunity
     SrdAlways(u8),
     /// an SRD request to `dest` at every third opportunity
@@ -43,6 +45,14 @@ impl FdlApplication for TrafficApp {
                     DataTelegramHeader { da: 127, sa, dsap: Some(58), ssap: Some(62), fc: FunctionCode::Request { fcb: FrameCountBit::Inactive, req: RequestType::SdnLow } },
                     2,
                     |b| b.fill(0),
+                ))
+            }
+            Load::SdnLong => {
+                self.sent += 1;
+                Some(tx.send_data_telegram(
+                    DataTelegramHeader { da: 127, sa, dsap: Some(58), ssap: Some(62), fc: FunctionCode::Request { fcb: FrameCountBit::Inactive, req: RequestType::SdnLow } },
+                    240,
+                    |b| b.fill(0x55),
                 ))
             }
             Load::SrdAlways(d) | Load::SrdEvery3(d) => {
@@ -114,6 +124,8 @@ impl W3Cfg {
                 Load::None
             } else if s == "SdnAlways" {
                 Load::SdnAlways
+            } else if s == "SdnLong" {
+                Load::SdnLong
             } else {
                 let n: u8 = s.trim_end_matches(')').split('(').nth(1).unwrap().parse().unwrap();
                 if s.starts_with("SrdAlways") {
